@@ -100,11 +100,13 @@ func (s *socket) SendMsg(m *protocol.Message) error {
 
 func (s *socket) RecvMsg() (*protocol.Message, error) {
 	timeQ := nilQ
+	s.Lock()
+	if s.recvExpire > 0 {
+		timeQ = time.After(s.recvExpire)
+	}
+	s.Unlock()
 	for {
 		s.Lock()
-		if timeQ == nil && s.recvExpire > 0 {
-			timeQ = time.After(s.recvExpire)
-		}
 		sizeQ := s.sizeQ
 		recvQ := s.recvQ
 		closeQ := s.closeQ
